@@ -41,32 +41,158 @@ HEADER = ('From Coq Require Import ZArith List Bool Arith.\nImport ListNotations
           'Open Scope Z_scope.\n'
           'Definition bools_eqb := list_eqb Bool.eqb.\nDefinition nats_eqb := list_eqb Nat.eqb.\n'
           'Definition fpart_eqb (a b : fpart) : bool := match a, b with FLit x, FLit y => str_eqb x y '
-          '| FField s1 c1 p1, FField s2 c2 p2 => str_eqb s1 s2 && opt_eqb Z.eqb c1 c2 && opt_eqb str_eqb p1 p2 | _, _ => false end.\n')
+          '| FField s1 c1 p1, FField s2 c2 p2 => str_eqb s1 s2 && opt_eqb Z.eqb c1 c2 && opt_eqb str_eqb p1 p2 | _, _ => false end.\n'
+          'Definition bit (b : bool) (n : nat) : nat := if b then 0%nat else n.\n'
+          '(* all ties of one tree in one term (the tree literal is written once); the result is the sum of the codes of the ties that fail *)\n'
+          'Definition tcase (t : expr) (real : str) (exp : option (option expr)) (reft fullt : option str) (wfx : option bool) (selfparse : bool) : nat :=\n'
+          '  (bit (str_eqb (render pony_escape_braces (print pony_style t)) real) 1\n'
+          '  + match exp with Some e => bit (opt_eqb expr_eqb (parse_auto (print pony_style t)) e) 2 | None => 0 end\n'
+          '  + match reft with Some r => bit (str_eqb (render true (print ref_style t)) r) 4 | None => 0 end\n'
+          '  + match fullt with Some r => bit (str_eqb (render true (print full_style t)) r) 8 | None => 0 end\n'
+          '  + match wfx with Some w => bit (Bool.eqb (wf t) w) 16 | None => 0 end\n'
+          '  + (if selfparse then bit (opt_eqb expr_eqb (parse_auto (print ref_style t)) (Some t)) 32 else 0))%nat.\n'
+          'Definition nonzero (l : list nat) : list (nat * nat) := filter (fun p => negb (Nat.eqb (snd p) 0)) (combine (seq 0 (length l)) l).\n')
 
 LEXICAL = re.compile(r'\d\.[A-Za-z_]')
 
 
-def run_bools(ctx, exprs, chunk=900):
+def run_codes(ctx, exprs, chunk=400):
+    """exprs: Coq terms of type nat (0 = every tie of the case holds). Returns [(index, code)] of the non-zero ones."""
     chunks = []
     for i in range(0, len(exprs), chunk):
-        chunks.append('Definition cases : list bool := [\n' + ';\n'.join(exprs[i:i + chunk]) + '].\nEval vm_compute in (failing cases).\n')
+        chunks.append('Definition cases : list nat := [\n' + ';\n'.join(exprs[i:i + chunk]) + '].\nEval vm_compute in (nonzero cases).\n')
     outs = vlib.coq_eval_many(ctx, HEADER, chunks)
     bad = []
     for k, out in enumerate(outs):
         vals = vlib.parse_eval_outputs(out)
         assert len(vals) == 1, out[-500:]
-        inner = vals[0].strip().strip('[]').strip()
-        if inner:
-            for tok in inner.split(';'):
-                bad.append(k * chunk + int(tok.strip().replace('%nat', '')))
+        for m in re.finditer(r'\((\d+)(?:%nat)?\s*,\s*(\d+)(?:%nat)?\)', vals[0]):
+            bad.append((k * chunk + int(m.group(1)), int(m.group(2))))
     return bad
 
 
 _tbl = {}
 
+# the rule of the unchanged code; used ONLY to label failing inputs when the scanner refuses the current source (the oracle itself never uses it)
+BASELINE_TABLE = {'cmp': '>=',
+ 'default': 0,
+ 'escape': False,
+ 'keep_spec': False,
+ 'kind_ok': {'Add': True,
+             'And': True,
+             'Attribute': True,
+             'BitAnd': True,
+             'BitOr': True,
+             'BitXor': True,
+             'Call': True,
+             'Compare': True,
+             'Const': True,
+             'Div': True,
+             'FloorDiv': True,
+             'Formatted': True,
+             'IdxTuple': True,
+             'IfExp': True,
+             'Invert': False,
+             'Joined': True,
+             'Keyword': True,
+             'LShift': True,
+             'Lambda': True,
+             'List': True,
+             'Mod': True,
+             'Mult': True,
+             'Name': True,
+             'NegConst': True,
+             'Not': True,
+             'Or': True,
+             'Pow': True,
+             'RShift': True,
+             'Slice': True,
+             'StarArg': True,
+             'StarElt': True,
+             'Sub': True,
+             'Subscript': True,
+             'Tuple': True,
+             'UAdd': True,
+             'USub': True},
+ 'own': {'Add': 6,
+         'And': 13,
+         'Attribute': 2,
+         'BitAnd': 8,
+         'BitOr': 10,
+         'BitXor': 9,
+         'Call': 2,
+         'Compare': 11,
+         'Const': 1,
+         'Div': 5,
+         'FloorDiv': 5,
+         'Formatted': 0,
+         'IdxTuple': 1,
+         'IfExp': 0,
+         'Invert': 4,
+         'Joined': 0,
+         'Keyword': 0,
+         'LShift': 7,
+         'Lambda': 0,
+         'List': 1,
+         'Mod': 5,
+         'Mult': 5,
+         'Name': 1,
+         'NegConst': 1,
+         'Not': 12,
+         'Or': 14,
+         'Pow': 3,
+         'RShift': 7,
+         'Slice': 0,
+         'StarArg': 0,
+         'StarElt': 0,
+         'Sub': 6,
+         'Subscript': 2,
+         'Tuple': 1,
+         'UAdd': 4,
+         'USub': 4},
+ 'threshold': {'Add': 6,
+               'And': 13,
+               'Attribute': None,
+               'BitAnd': 8,
+               'BitOr': 10,
+               'BitXor': 9,
+               'Call': None,
+               'Compare': 11,
+               'Const': None,
+               'Div': 5,
+               'FloorDiv': 5,
+               'Formatted': None,
+               'IdxTuple': None,
+               'IfExp': None,
+               'Invert': 4,
+               'Joined': None,
+               'Keyword': None,
+               'LShift': 7,
+               'Lambda': None,
+               'List': None,
+               'Mod': 5,
+               'Mult': 5,
+               'Name': None,
+               'NegConst': None,
+               'Not': 12,
+               'Or': 14,
+               'Pow': 3,
+               'RShift': 7,
+               'Slice': None,
+               'StarArg': None,
+               'StarElt': None,
+               'Sub': 6,
+               'Subscript': None,
+               'Tuple': None,
+               'UAdd': 4,
+               'USub': 4}}
+
 def tables():
     if 'tbl' not in _tbl:
-        _tbl['tbl'] = priority.scan()
+        try:
+            _tbl['tbl'] = priority.scan()
+        except vlib.TranslateError:
+            _tbl['tbl'] = dict(BASELINE_TABLE, scan_failed=True)
         _tbl['pony'] = priority.pony_needs_fn(_tbl['tbl'])
     return _tbl['tbl'], _tbl['pony']
 
@@ -197,7 +323,7 @@ def corr_trees(ctx):
                 child = G.minimal(c)
                 for t in G.variants_for(p, i, child):
                     if G.wf(t, parse_model=False): add(t, 'triple')
-    n = ctx.scale(700, 7000)
+    n = ctx.scale(500, 6000)
     g = G.Gen(ctx.rng, negconst=True, invert=tbl['kind_ok']['Invert'], short_idx=False, braces=True, specs=True)
     for _ in range(n):
         t = g.expr(ctx.rng.choice([1, 2, 2, 3, 3, 4, 5]))
@@ -221,16 +347,25 @@ def nontrivial_tree(t):
     return G.has_kind(t, {'Formatted'})
 
 
+CODES = {1: 'text of the model printer (code style) differs from the real ast2src', 2: 'model parser and CPython read the real output differently',
+         4: 'reference printer text differs from its Python mirror', 8: 'all-parentheses printer text differs from its Python mirror',
+         16: 'Coq wf differs from its Python mirror', 32: 'model parser does not read the reference text back as the tree'}
+
+
 def correspondence(ctx):
     import c04_eval as E
     tbl, pony = tables()
-    exprs, meta = table_cases()
+    texprs, tmeta = table_cases()
+    exprs = ['bit (%s) 1' % e for e in texprs]
+    meta = list(tmeta)
+    ncases = len(exprs)
     dist = {'table_cases': len(exprs), 'tieB_text': 0, 'parser_vs_cpython_on_real_output': 0, 'reference_text_vs_mirror': 0, 'cpython_reparse_reference': 0,
             'cpython_reparse_all_parentheses': 0, 'cpython_reparse_random_extra_parentheses': 0, 'model_parse_reference': 0, 'wf_mirror': 0,
             'fstring_char_level': 0, 'skipped_lexical': 0, 'trees_triple_contexts': 0, 'trees_random': 0, 'depth_max': 0, 'real_printer_wrong_text': 0}
     disagreements, samples, nontrivial = [], [], set()
-    esc = 'true' if tbl['escape'] else 'false'
     all_needs = lambda p, i, c: G.expr_kind(c)
+    some = lambda x: 'None' if x is None else '(Some %s)' % x
+    first_tree_case = None
     for t, origin in corr_trees(ctx):
         if any(not tbl['kind_ok'][k] for k in G.kinds_in(t)):
             dist['skipped_unprintable_kind'] = dist.get('skipped_unprintable_kind', 0) + 1     # ~x: the code raises, nothing to compare (search reports it)
@@ -247,77 +382,78 @@ def correspondence(ctx):
         except Exception as e:
             disagreements.append({'what': 'real ast2src raised on a tree of a printable kind', 'input': t, 'impl': '%s: %s' % (type(e).__name__, e)})
             continue
-        exprs.append('str_eqb (render %s (print pony_style %s)) %s' % (esc, T, G.cstr(real))); meta.append(('tieB', t, real)); dist['tieB_text'] += 1
+        dist['tieB_text'] += 1; ncases += 1
         mirror = G.render(G.print_tokens(t, pony, keep_spec=tbl['keep_spec']), tbl['escape'])
         if mirror != real:
             disagreements.append({'what': 'Python mirror of the printer differs from the real ast2src', 'input': t, 'impl': real, 'model': mirror})
         if len(samples) < 4 and origin == 'random' and G.depth(t) >= 3: samples.append({'tree': t, 'ast2src': real})
         has_neg = G.has_kind(t, {'NegConst'})
-        short_idx = any(True for _ in [0] if _has_short_idx(t))
+        short_idx = _has_short_idx(t)
         # the model parser reads the real output the way CPython does (also where the output is wrong)
         back = cpy_parse(real)
-        if back is not None and G.dump_norm(back) != want_dump: dist['real_printer_wrong_text'] += 1
-        if back is None: dist['real_printer_wrong_text'] += 1
+        if back is None or G.dump_norm(back) != want_dump: dist['real_printer_wrong_text'] += 1
         braces = not tbl['escape'] and _has_brace_lit(t)      # the token model keeps literal segments opaque: unescaped braces are a text-level matter (C04_fstring)
         if braces: dist['skipped_brace_text'] = dist.get('skipped_brace_text', 0) + 1
-        if not has_neg and not braces:
+        exp = None
+        # (index tuples of length < 2 are outside wf: their text `x[(..)]` is read by CPython as an index tuple again, the model parser keeps the display)
+        if not has_neg and not braces and not short_idx:
             if back is None and LEXICAL.search(real):
                 dist['skipped_lexical'] += 1
             else:
                 try:
                     exp = 'None' if back is None else '(Some %s)' % G.coq_expr(G.from_ast(back))
+                    dist['parser_vs_cpython_on_real_output'] += 1; ncases += 1
                 except G.Unmodelled:
                     exp = None
-                if exp is not None:
-                    exprs.append('opt_eqb expr_eqb (parse_auto (print pony_style %s)) %s' % (T, exp)); meta.append(('parser-vs-cpython', t, real))
-                    dist['parser_vs_cpython_on_real_output'] += 1
+        reft = fullt = wfx = None
+        selfparse = False
         if short_idx:
-            exprs.append('negb (wf %s)' % T); meta.append(('wf-mirror', t, 'short index tuple')); dist['wf_mirror'] += 1
-            continue
-        # reference printer: CPython reads its text back as the tree; so it does with redundant parentheses
-        reft = G.render(G.print_tokens(t, G.ref_needs), True)
-        fullt = G.render(G.print_tokens(t, all_needs), True)
-        extrat = G.render(G.print_tokens(t, G.ref_needs, extra=lambda path: ctx.rng.choice([0, 0, 0, 1, 2])), True)
-        for name, text in (('reference', reft), ('all_parentheses', fullt), ('random_extra_parentheses', extrat)):
-            b2 = cpy_parse(text)
-            dist['cpython_reparse_' + name] += 1
-            if b2 is None or G.dump_norm(b2) != want_dump:
-                disagreements.append({'what': 'CPython does not read the %s text back as the tree (reference rule wrong?)' % name, 'input': t, 'impl': text})
-        exprs.append('str_eqb (render true (print ref_style %s)) %s' % (T, G.cstr(reft))); meta.append(('ref-mirror', t, reft)); dist['reference_text_vs_mirror'] += 1
-        exprs.append('str_eqb (render true (print full_style %s)) %s' % (T, G.cstr(fullt))); meta.append(('full-mirror', t, fullt)); dist['reference_text_vs_mirror'] += 1
-        if has_neg:
-            exprs.append('negb (wf %s)' % T); meta.append(('wf-mirror', t, 'negconst')); dist['wf_mirror'] += 1
+            wfx = False; dist['wf_mirror'] += 1; ncases += 1
         else:
-            ok = G.wf(t)
-            exprs.append(('wf %s' if ok else 'negb (wf %s)') % T); meta.append(('wf-mirror', t, ok)); dist['wf_mirror'] += 1
-            if ok and origin != 'triple':
-                exprs.append('opt_eqb expr_eqb (parse_auto (print ref_style %s)) (Some %s)' % (T, T)); meta.append(('model-parse-reference', t, reft))
-                dist['model_parse_reference'] += 1
+            # reference printer: CPython reads its text back as the tree; so it does with redundant parentheses
+            reft = G.render(G.print_tokens(t, G.ref_needs), True)
+            fullt = G.render(G.print_tokens(t, all_needs), True)
+            extrat = G.render(G.print_tokens(t, G.ref_needs, extra=lambda path: ctx.rng.choice([0, 0, 0, 1, 2])), True)
+            for name, text in (('reference', reft), ('all_parentheses', fullt), ('random_extra_parentheses', extrat)):
+                b2 = cpy_parse(text)
+                dist['cpython_reparse_' + name] += 1; ncases += 1
+                if b2 is None or G.dump_norm(b2) != want_dump:
+                    disagreements.append({'what': 'CPython does not read the %s text back as the tree (reference rule wrong?)' % name, 'input': t, 'impl': text})
+            dist['reference_text_vs_mirror'] += 2; ncases += 2
+            wfx = False if has_neg else G.wf(t)
+            dist['wf_mirror'] += 1; ncases += 1
+            if wfx and origin != 'triple':
+                selfparse = True; dist['model_parse_reference'] += 1; ncases += 1
+        if first_tree_case is None: first_tree_case = len(exprs)
+        exprs.append('tcase %s %s %s %s %s %s %s' % (T, G.cstr(real), some(exp), some(reft and G.cstr(reft)), some(fullt and G.cstr(fullt)),
+                                                    some(None if wfx is None else ('true' if wfx else 'false')), 'true' if selfparse else 'false'))
+        meta.append(('tree', t, real))
 
     # f-string bodies, character level: Coq print_f/parse_f vs CPython
     for v in fstring_values(ctx):
         body = fbody(v, True, True)
         cv = coq_fparts(v)
-        exprs.append('str_eqb (print_f true true %s) %s' % (cv, G.cstr(body))); meta.append(('fstr-print', v, body))
+        parts = ['bit (str_eqb (print_f true true %s) %s) 1' % (cv, G.cstr(body))]
         got = cpy_fstring(body)
         if got != v:
             disagreements.append({'what': 'CPython reads the f-string body differently from the value it was printed from', 'input': v, 'impl': got, 'text': body})
-        exprs.append('opt_eqb (list_eqb fpart_eqb) (parse_f %s) (Some %s)' % (G.cstr(body), cv)); meta.append(('fstr-parse', v, body))
+        parts.append('bit (opt_eqb (list_eqb fpart_eqb) (parse_f %s) (Some %s)) 2' % (G.cstr(body), cv))
         loose = fbody(v, tbl['escape'], tbl['keep_spec'])
         got2 = cpy_fstring(loose)
-        exprs.append('opt_eqb (list_eqb fpart_eqb) (parse_f %s) %s' % (G.cstr(loose), 'None' if got2 is None else '(Some %s)' % coq_fparts(got2)))
-        meta.append(('fstr-parse-code-flags', v, loose))
-        dist['fstring_char_level'] += 3
+        if got2 is not None and got2 != 'nested':      # (where CPython rejects the text because a would-be field is not an expression, the model, whose field sources are opaque, has no opinion)
+            parts.append('bit (opt_eqb (list_eqb fpart_eqb) (parse_f %s) (Some %s)) 4' % (G.cstr(loose), coq_fparts(got2)))
+        exprs.append('(fold_right Nat.add 0%nat [' + '; '.join(parts) + '])'); meta.append(('fstring', v, body))
+        dist['fstring_char_level'] += len(parts) + 1; ncases += len(parts) + 1
         nontrivial.add(json.dumps(v))
 
-    bad = run_bools(ctx, exprs)
-    for i in bad[:20]:
+    for i, code in run_codes(ctx, exprs)[:20]:
         kind, inp, impl = meta[i]
-        disagreements.append({'what': 'model and implementation differ (%s)' % kind, 'input': inp, 'impl': impl, 'coq_case': exprs[i][:1200]})
-    samples.append({'coq_case': exprs[len(table_cases()[0])][:600]})
-    return Corr(cases=len(exprs), nontrivial=len(nontrivial), disagreements=disagreements, samples=samples, distribution=dist,
-                note='every case is a boolean computed by vm_compute inside Coq from the model and the serialised implementation / CPython output; '
-                     'CPython reparse checks of the reference texts run on the Python side')
+        why = '; '.join(w for c, w in CODES.items() if code & c) if kind == 'tree' else 'code %d' % code
+        disagreements.append({'what': 'model and implementation differ (%s: %s)' % (kind, why), 'input': inp, 'impl': impl, 'coq_case': exprs[i][:1500]})
+    if first_tree_case is not None: samples.append({'coq_case': exprs[first_tree_case][:700]})
+    return Corr(cases=ncases, nontrivial=len(nontrivial), disagreements=disagreements, samples=samples, distribution=dist,
+                note='per tree one Coq term `tcase` evaluated by vm_compute (text equality with ast2src, model parser vs ast.parse on the real output, reference / all-parentheses '
+                     'text vs mirror, wf vs mirror, model reparse of the reference text); cases counts the individual ties; CPython reparse checks of the reference texts run on the Python side')
 
 
 def _has_brace_lit(t):
@@ -413,6 +549,7 @@ def search(ctx, deep):
     for text in CORPUS:
         try: trees.append(G.from_ast(ast.parse(text, mode='eval').body))
         except G.Unmodelled: pass
+    trees = corpus_trees() + trees           # minimised past failures first
     trees.append(('Pow', None, [('NegConst', '1', []), ('Name', 'y', [])]))
     trees.append(('Subscript', None, [('Name', 'x', []), ('IdxTuple', None, [('Name', 'a', [])])]))
     trees.append(('Subscript', None, [('Name', 'x', []), ('IdxTuple', None, [])]))
@@ -471,6 +608,15 @@ def search(ctx, deep):
         else: nontriv.add('gen' + text)
     return Search(evaluations=evals, failures=failures, nontrivial=len(nontriv), distribution=dist, exhaustive=False,
                   samples=[{'query': "select(p for p in P if p.x == ((a + b).bit_length()))", 'scope': E.INT_SCOPE}])
+
+
+def corpus_trees():
+    import glob, os
+    out = []
+    for f in sorted(glob.glob(os.path.join(vlib.VERIF, 'corpus', 'C04', '*.json'))):
+        try: out.append(G.tree_from_json(json.load(open(f))['tree']))
+        except Exception: pass
+    return out
 
 
 def _short(res):
